@@ -176,11 +176,27 @@ func c23Table() []c23Row {
 			add(e, []string{"client-gone"}, v)
 		}
 	}
+	// a JSON batch whose NON-first event carries a time string that is not a timestamp
+	// (the time is parsed per event inside the processing loop, after earlier events
+	// were handed over); the event itself stays a valid event with an unknown time
+	for _, l := range []E3Listener{E3Incoming, E3Peer} {
+		for _, v := range []string{"0", "7", "12345", "153558938", "-5", "0x10", "soon", " ", "1e3"} {
+			add(ep{"batch", "json", "inproc", l}, []string{"odd-time-string"}, v)
+		}
+	}
+	// large batches (executed for the first repetitions only, see c23RunRow)
+	for _, c := range []string{"msgpack", "json"} {
+		for _, v := range []string{"1025", "1500", "3000"} {
+			add(ep{"batch", c, "inproc", E3Incoming}, []string{"large-batch"}, v)
+		}
+	}
 	for _, v := range []string{"resourceSpans-number", "scopeSpans-string"} {
 		add(ep{"otlp-traces", "json", "inproc", E3Incoming}, []string{"ill-typed-body"}, v)
 	}
 	return rows
 }
+
+var c23TableCached []c23Row
 
 type c23Outcome struct {
 	HTTP    *E3Resp       `json:"http,omitempty"`
@@ -192,7 +208,8 @@ func TestVerif_C23(t *testing.T) {
 	run := verifkit.Start(t, "C23", "route")
 	defer run.Finish()
 	table := c23Table()
-	run.Rule(fmt.Sprintf("fault enumeration: a fixed table of %d rows = endpoint {/1/events, /1/batch (JSON, msgpack; incoming and peer listener), /v1/traces, /v1/logs (protobuf, JSON), gRPC TraceService/Export, LogsService/Export} x fault {none, bad dataset escape, environment lookup error, body read error, malformed body, ill-typed body, queue full, invalid events, client gone (request context cancelled after k of n events were handed over), and the combinations env+queue-full, env+malformed, invalid+queue-full} x variant (cut points, which events are refused/empty, compression); every row is executed K times (quick 2, thorough 300) with PRNG-chosen payloads of 1-5 events mixing own spans, peer-owned spans and trace-less events; non-trivial = a row with an injected fault; distinct = table row", len(table)))
+	c23TableCached = table
+	run.Rule(fmt.Sprintf("fault enumeration: a fixed table of %d rows = endpoint {/1/events, /1/batch (JSON, msgpack; incoming and peer listener), /v1/traces, /v1/logs (protobuf, JSON), gRPC TraceService/Export, LogsService/Export} x fault {none, bad dataset escape, environment lookup error, body read error, malformed body, ill-typed body, queue full, invalid events, client gone (request context cancelled after k of n events were handed over), odd time string on a non-first JSON batch event, large batches of 1025/1500/3000 events (first repetitions only), and the combinations env+queue-full, env+malformed, invalid+queue-full} x variant (cut points, which events are refused/empty, compression); every row is executed K times (quick 2, thorough 300) with PRNG-chosen payloads of 1-5 events mixing own spans, peer-owned spans and trace-less events; non-trivial = a row with an injected fault; distinct = table row", len(table)))
 	run.Assume("side effects are exactly: Collector.AddSpan/AddSpanFromPeer returning nil, UpstreamTransmission/PeerTransmission.Enqueue*; a span the collector refuses with ErrWouldBlock is 'refused because the queue was full'")
 	run.Assume("bad dataset escapes and short bodies are delivered over a loopback TCP connection to an http.Server serving the router's own mux; failing in-process body readers return io.ErrUnexpectedEOF, which is what net/http hands a handler whose client closed early")
 
@@ -210,6 +227,22 @@ func c23RunRow(t *testing.T, run *verifkit.Run, b *E3Bench, row c23Row, rng *ver
 	n := 1
 	if row.Endpoint != "event" {
 		n = rng.Range(1, 5)
+	}
+	if row.has("odd-time-string") {
+		n = rng.Range(2, 5)
+	}
+	if row.has("large-batch") {
+		// 1-2 cases per size in the quick tier, 20 in thorough: the row is skipped afterwards
+		rep, maxRep := caseNo/len(c23TableCached), 1
+		if run.Thorough() {
+			maxRep = 20
+		}
+		if rep >= maxRep {
+			run.Count("large_batch_repetitions_skipped", 1)
+			return
+		}
+		fmt.Sscan(row.Variant, &n)
+		run.Count("large_batch_events", int64(n))
 	}
 	if row.has("invalid-events") && n < 3 {
 		n = 3
@@ -321,6 +354,9 @@ func c23RunRow(t *testing.T, run *verifkit.Run, b *E3Bench, row c23Row, rng *ver
 		}
 		if row.has("ill-typed-body") {
 			items, evs = c23IllTypedBatch(row, items, evs)
+		}
+		if row.has("odd-time-string") {
+			items[rng.Range(1, len(items)-1)].Time = e3P(VStr(row.Variant))
 		}
 		req, err = e3BatchReq(row.Listener, wireEnc, "c23", key, items)
 	case "otlp-traces":
@@ -487,8 +523,15 @@ func c23RunRow(t *testing.T, run *verifkit.Run, b *E3Bench, row c23Row, rng *ver
 	}
 	sig := func(v string) string { return "C23/" + row.Endpoint + "/" + row.Faults[0] + "/" + v }
 	wit := func() map[string]any {
+		wEvs, wObs := evs, all
+		if len(wEvs) > 40 { // large batches: keep the replay file readable
+			wEvs = wEvs[:40]
+		}
+		if len(wObs) > 40 {
+			wObs = wObs[:40]
+		}
 		return map[string]any{"row": row.String(), "faults": row.Faults, "variant": row.Variant, "transport": row.Transport, "encoding": row.Enc,
-			"listener": row.Listener.String(), "events": evs, "request": req.Witness(), "outcome": out, "observations": all}
+			"listener": row.Listener.String(), "events": wEvs, "events_total": len(evs), "request": req.Witness(), "outcome": out, "observations": wObs, "observations_total": len(all)}
 	}
 	if out.HTTP != nil && out.HTTP.Panicked != "" {
 		run.Violation(sig("panic-escaped-handler-chain"), "a panic escaped the router's handler chain: "+out.HTTP.Panicked, wit())
